@@ -3,7 +3,7 @@ From Coq Require Import List NArith Arith Bool Lia.
 Import ListNotations.
 From Snaps Require Import Base.Bytes Base.Lines Base.Dec Base.Assoc.
 From Snaps Require Import Model.Frame Model.PathModel Model.Mode Model.Api.
-From Snaps Require Import Proofs.BytesP.
+From Snaps Require Import Proofs.BytesP Proofs.DiffDecisionP.
 
 Definition stand_generic (s : state) (c : config) (test : bytes) : bytes :=
   snapshot_path c (s_caller s) test true.
@@ -62,7 +62,7 @@ Lemma stand_replay s a c test text :
     s_fs s' = s_fs s.
 Proof.
   unfold stand_path, stand_generic, stand_call, reg_stand, finish. cbn. intros H.
-  rewrite H. unfold diff_empty. rewrite beq_refl.
+  rewrite H. rewrite diff_empty_refl.
   eexists _, _. split; [reflexivity|]. cbn. repeat split.
 Qed.
 
@@ -77,7 +77,7 @@ Lemma stand_mismatch s a c test text prev s' o :
      alookup (o_path o) (s_fs s') = Some text).
 Proof.
   unfold stand_path, stand_generic, stand_call, reg_stand, finish. cbn. intros H Hne.
-  rewrite H. unfold diff_empty. apply beq_neq in Hne. rewrite Hne.
+  rewrite H. rewrite (diff_empty_false _ _ Hne).
   destruct (should_update _ _); intros [= <- <-]; cbn.
   - right. repeat split. apply alookup_aset_same.
   - left. repeat split.
